@@ -40,6 +40,7 @@ func init() {
 			{Name: "enumerate", Variant: "plain", N: core.Tiered(9, 9), Run: c08Enumerate},
 			{Name: "meta", Variant: "plain", N: core.Tiered(30, 500), Run: c08Meta},
 			{Name: "concurrent", Variant: "plain", N: core.Tiered(60, 2000), Run: c08Concurrent, TimeoutS: 300},
+			{Name: "concurrent-create", Variant: "plain", N: core.Tiered(60, 2000), Run: c08ConcurrentCreate, TimeoutS: 300},
 			{Name: "concurrent-race", Variant: "race", N: core.Tiered(30, 600), Run: c08ConcurrentRace, Env: []string{"GORACE=halt_on_error=1 exitcode=66"}, TimeoutS: 300},
 		},
 		RequireTags: func(string) []string { return []string{"probe:held", "probe:exclusive", "porcupine:ok", "sel:stop-beyond-extent", "sel:nil-dim", "sel:step>1"} },
@@ -1027,6 +1028,169 @@ func c08SelectionSeq(c *core.Ctx) {
 	}
 	if !sameSel(shared, orig) {
 		c.Violate("selection-argument-modified", "io/float64", fmt.Sprintf("the Loads changed the caller's selection from %v to %v", orig, shared))
+	}
+	probeReport(c)
+}
+
+// ---------------------------------------------------------------------------
+// concurrent callers where Write CREATES the datasets during the history: a Load must see a
+// dataset either absent or with the complete contents of some Write - never a half-made one.
+
+type ccIn struct {
+	DS    int
+	Write bool
+	Vals  []int64
+}
+
+type ccOut struct {
+	Absent bool
+	Vals   []int64
+}
+
+type ccState struct {
+	Exists bool
+	Vals   [6]int64
+}
+
+func ccModel() porcupine.Model {
+	return porcupine.Model{
+		Partition: func(history []porcupine.Operation) [][]porcupine.Operation {
+			m := map[int][]porcupine.Operation{}
+			for _, o := range history {
+				k := o.Input.(ccIn).DS
+				m[k] = append(m[k], o)
+			}
+			var r [][]porcupine.Operation
+			for _, v := range m {
+				r = append(r, v)
+			}
+			return r
+		},
+		Init: func() interface{} { return ccState{} },
+		Step: func(state, input, output interface{}) (bool, interface{}) {
+			st := state.(ccState)
+			in := input.(ccIn)
+			out := output.(ccOut)
+			if in.Write {
+				if out.Absent { // a Write must not fail
+					return false, st
+				}
+				st.Exists = true
+				copy(st.Vals[:], in.Vals)
+				return true, st
+			}
+			if out.Absent {
+				return !st.Exists, st
+			}
+			if !st.Exists || len(out.Vals) != len(st.Vals) {
+				return false, st
+			}
+			for i := range st.Vals {
+				if out.Vals[i] != st.Vals[i] {
+					return false, st
+				}
+			}
+			return true, st
+		},
+		Equal: func(a, b interface{}) bool { return a.(ccState) == b.(ccState) },
+		DescribeOperation: func(input, output interface{}) string {
+			in := input.(ccIn)
+			out := output.(ccOut)
+			if in.Write {
+				return fmt.Sprintf("Write(/d%d) <- %v", in.DS, in.Vals)
+			}
+			if out.Absent {
+				return fmt.Sprintf("Load(/d%d) -> absent", in.DS)
+			}
+			return fmt.Sprintf("Load(/d%d) -> %v", in.DS, out.Vals)
+		},
+	}
+}
+
+func c08ConcurrentCreate(c *core.Ctx) {
+	installProbe()
+	nClients := c.R.IntRange(4, 8)
+	opsPer := c.R.IntRange(3, 6)
+	nDS := c.R.IntRange(1, 3)
+	delaySeed := c.R.Uint64()
+	c.Begin(map[string]interface{}{"model": "io/int64", "clients": nClients, "ops_per_client": opsPer, "datasets_created_by_write": nDS, "delay_seed": delaySeed})
+	c.Class(fmt.Sprintf("concurrent-create/c%d/o%d/d%d", nClients, opsPer, nDS))
+	io, b := ioBackendInt64(), backendInt64()
+	file := c08File(c, "ccn")
+	defer os.Remove(file)
+	hdf5.SetDelays(delaySeed, 400)
+	defer hdf5.SetDelays(0, 0)
+	var clock int64
+	var mu sync.Mutex
+	var ops []porcupine.Operation
+	var wg sync.WaitGroup
+	start := make(chan struct{})
+	for cl := 0; cl < nClients; cl++ {
+		wg.Add(1)
+		r := core.NewRand(delaySeed, uint64(cl), 77)
+		writer := cl%2 == 0
+		go func(cl int, r *core.Rand) {
+			defer wg.Done()
+			<-start
+			for k := 0; k < opsPer; k++ {
+				ds := r.Intn(nDS)
+				in := ccIn{DS: ds}
+				var out ccOut
+				if writer && r.Bool(0.7) {
+					vals := make([]int64, 6)
+					for i := range vals {
+						vals[i] = int64(cl+1)<<20 | int64(k+1)<<8 | int64(i+1)
+					}
+					in.Write, in.Vals = true, vals
+					call := atomic.AddInt64(&clock, 1)
+					err := io.Write(file, fmt.Sprintf("/G/d%d", ds), b.FromSlice(append([]int64{}, vals...), []int{2, 3}))
+					ret := atomic.AddInt64(&clock, 1)
+					out.Absent = err != nil
+					mu.Lock()
+					ops = append(ops, porcupine.Operation{ClientId: cl, Input: in, Call: call, Output: out, Return: ret})
+					mu.Unlock()
+				} else {
+					call := atomic.AddInt64(&clock, 1)
+					a, err := io.Load(file, fmt.Sprintf("/G/d%d", ds), nil)
+					ret := atomic.AddInt64(&clock, 1)
+					if err != nil || a == nil {
+						out.Absent = true
+					} else {
+						shp := a.Shape()
+						for f := 0; f < prod(shp); f++ {
+							out.Vals = append(out.Vals, a.Get(unflatten(shp, f)))
+						}
+					}
+					mu.Lock()
+					ops = append(ops, porcupine.Operation{ClientId: cl, Input: in, Call: call, Output: out, Return: ret})
+					mu.Unlock()
+				}
+			}
+		}(cl, r)
+	}
+	close(start)
+	wg.Wait()
+	c.Count("concurrent_create_histories", 1)
+	c.Count("concurrent_ops", float64(len(ops)))
+	res, _ := porcupine.CheckOperationsVerbose(ccModel(), ops, 30*time.Second)
+	switch res {
+	case porcupine.Ok:
+		c.Tag("porcupine:ok")
+		c.Count("porcupine_ok", 1)
+	case porcupine.Illegal:
+		c.Count("porcupine_illegal", 1)
+		sort.Slice(ops, func(i, j int) bool { return ops[i].Call < ops[j].Call })
+		desc := ""
+		for _, o := range ops {
+			desc += fmt.Sprintf("[client %d, %d..%d] %s; ", o.ClientId, o.Call, o.Return, ccModel().DescribeOperation(o.Input, o.Output))
+			if len(desc) > 1400 {
+				break
+			}
+		}
+		c.Violate("not-linearizable", "io/int64", "Write/Load history on datasets created by Write has no sequential explanation (a Load saw a dataset that no Write ever produced): "+desc, "workload", "create")
+	default:
+		c.Count("porcupine_unknown", 1)
+		c.Inconclusive("porcupine timed out")
 	}
 	probeReport(c)
 }
